@@ -415,8 +415,14 @@ def handle (j : Json) : Json :=
       match bool? (getD el "ow"), toSched (getD el "sched") with
       | some ow, some sch =>
         let flow := merge p A B
-        Json.mkObj [("flow", ofList (fun v => ofTok v.tok) flow), ("run", pdfJson (pdfRun ow sch fs flow)),
-          ("a", pdfJson (pdfRun ow sch fs A)), ("sel", ofList Json.bool (flow.map pdfSel))]
+        let r := pdfRun ow sch fs flow
+        Json.mkObj [("flow", ofList (fun v => ofTok v.tok) flow), ("run", pdfJson r),
+          ("a", pdfJson (pdfRun ow sch fs A)), ("sel", ofList Json.bool (flow.map pdfSel)),
+          -- the reference notions of the theorems about LaTeXToPDF
+          ("spec", ofList ofItem (pdfSpec ow sch.rc fs 0 (flow.filter pdfSel))),
+          ("keysok", Json.bool (keysOKb [] flow)),
+          ("passed", ofList (fun v => ofTok v.tok) (passedOf r.out)),
+          ("prods", ofList ofItem (prodsOf r.out))]
       | _, _ => err "bad pdf spec"
     | some "h2g" => both histToGraphRun histToGraphSel id fs p A B
     | some "iterbins" =>
